@@ -23,8 +23,8 @@ if [ -n "${MUT_RACE:-}" ]; then race="-race"; export GORACE="halt_on_error=0 exi
 mkdir -p /tmp/mutverif.$$; cp /verif/known_findings.json /tmp/mutverif.$$/
 /verif/bin/verif-mut.$$ check $id --tier $tier --seed $seed --verif /tmp/mutverif.$$ ${MUT_ARGS:-} > /tmp/mutout.$$ 2>&1
 [ -n "${MUT_KEEPBIN:-}" ] && cp /verif/bin/verif-mut.$$ "$MUT_KEEPBIN"
-grep "^check\|^VIOLATION" /tmp/mutout.$$ | sed 's/replay=.*//' | cut -c1-220
-grep "^violation" /tmp/mutout.$$ | sed 's/replay=.*//' | awk '{ $2=""; print }' | cut -c1-220 | sort | uniq -c | sort -rn | head -${MUT_LINES:-12}
+grep -a "^check\|^VIOLATION" /tmp/mutout.$$ | sed 's/replay=.*//' | cut -c1-220
+grep -a "^violation" /tmp/mutout.$$ | sed 's/replay=.*//' | awk '{ $2=""; print }' | cut -c1-220 | sort | uniq -c | sort -rn | head -${MUT_LINES:-12}
 [ -n "${MUT_KEEP:-}" ] && cp /tmp/mutout.$$ "$MUT_KEEP"
 rm -f /tmp/mutout.$$
 rm -rf /tmp/mutverif.$$
